@@ -38,7 +38,110 @@ func randStr(r *vh.Rand, n int, kind int) string {
 	return string(b)
 }
 
+// capacityHistory: many blocks over a small table whose occupancy is simulated, so that entries land exactly at
+// capacity, one octet above it, or force the eviction of exactly the oldest entry; values are a function of
+// (letter, length) so that the same field comes back and is referenced by index after some evictions.
+func capacityHistory(r *vh.Rand) string {
+	ops := []string{"A=4096"}
+	max := r.Range(64, 400)
+	ops = append(ops, "m:"+strconv.Itoa(max))
+	type ent struct {
+		key  string
+		size int
+	}
+	var tab []ent
+	sum := 0
+	evict := func() {
+		for sum > max && len(tab) > 0 {
+			sum -= tab[0].size
+			tab = tab[1:]
+		}
+	}
+	names := []string{"x-a", "x-b", "x", "cookie", "k"}
+	nb := r.Range(8, 20)
+	if vh.Thorough {
+		nb = r.Range(15, 60)
+	}
+	for b := 0; b < nb; b++ {
+		for i := r.Range(1, 3); i > 0; i-- {
+			name := names[r.Intn(len(names))]
+			free := max - sum
+			var e int
+			switch r.Intn(8) {
+			case 0:
+				e = free // fills the table exactly
+			case 1:
+				e = free + 1 // one octet too many: exactly the oldest entries go
+			case 2:
+				e = max // alone at capacity
+			case 3:
+				e = max + 1 // cannot be indexed
+			case 4:
+				if len(tab) > 0 {
+					e = free + tab[0].size // fits exactly after evicting the oldest
+				}
+			default:
+				e = 32 + len(name) + r.Range(0, 24)
+			}
+			n := e - 32 - len(name)
+			if n < 0 || n > 420 {
+				n = r.Range(0, 12)
+			}
+			val := strings.Repeat(string("ab"[r.Intn(2)]), n)
+			if r.Chance(1, 10) && len(tab) > 0 { // come back to a field that may still be in the table
+				k := tab[r.Intn(len(tab))].key
+				j := strings.IndexByte(k, 0)
+				name, val = k[:j], k[j+1:]
+			}
+			sens := r.Chance(1, 12)
+			sf := "0"
+			if sens {
+				sf = "1"
+			}
+			ops = append(ops, "f:"+vh.Hex([]byte(name))+":"+vh.Hex([]byte(val))+":"+sf)
+			key := name + "\x00" + val
+			found := false
+			for _, t := range tab {
+				if t.key == key {
+					found = true
+				}
+			}
+			size := 32 + len(name) + len(val)
+			if !sens && !found && size <= max {
+				tab = append(tab, ent{key, size})
+				sum += size
+				evict()
+			}
+		}
+		if r.Chance(1, 5) { // between blocks: shrink to the occupancy, just below it, to 0, or grow again
+			switch r.Intn(5) {
+			case 0:
+				max = sum
+			case 1:
+				if sum > 0 {
+					max = sum - 1
+				}
+			case 2:
+				ops = append(ops, "m:0")
+				max = r.Range(64, 400)
+				tab, sum = nil, 0
+			case 3:
+				max = r.Range(64, 400)
+			default:
+				max = max + r.Range(1, 64)
+			}
+			ops = append(ops, "m:"+strconv.Itoa(max))
+			evict()
+		}
+		ops = append(ops, "e")
+	}
+	return strings.Join(ops, ";")
+}
+
 func gen(r *vh.Rand) string {
+	if r.Chance(1, 6) {
+		return capacityHistory(r)
+	}
 	allowed := 4096
 	switch r.Intn(6) {
 	case 0:
@@ -223,6 +326,43 @@ func errName(err error) string {
 	return "err:other"
 }
 
+// countingWriter is the encoder's io.Writer: it copies what it is given (an io.Writer must not retain p) and
+// counts the Write calls ("WriteField encodes f into a single Write").
+type countingWriter struct {
+	buf    bytes.Buffer
+	writes int
+}
+
+func (w *countingWriter) Write(p []byte) (int, error) {
+	w.writes++
+	return w.buf.Write(p)
+}
+
+type blockRec struct {
+	hex    string
+	fields []hpack.HeaderField
+	f2     []hpack.HeaderField // what the byte-wise decoder emitted
+	err    error
+	tabs   string
+	writes int
+	x      string
+}
+
+func renderFields(fields []hpack.HeaderField) string {
+	var fs []string
+	for _, hf := range fields {
+		s := "0"
+		if hf.Sensitive {
+			s = "1"
+		}
+		fs = append(fs, vh.Hex([]byte(hf.Name))+":"+vh.Hex([]byte(hf.Value))+":"+s)
+	}
+	if len(fs) == 0 {
+		return "-"
+	}
+	return strings.Join(fs, ",")
+}
+
 func exec(op string) string {
 	parts := strings.Split(op, ";")
 	if len(parts) < 1 || !strings.HasPrefix(parts[0], "A=") {
@@ -232,12 +372,15 @@ func exec(op string) string {
 	if err != nil {
 		return "bad-op"
 	}
-	var wire bytes.Buffer
-	enc := hpack.NewEncoder(&wire)
-	var fields []hpack.HeaderField
+	wire := &countingWriter{}
+	enc := hpack.NewEncoder(wire)
+	var fields, fields2 []hpack.HeaderField
 	dec := hpack.NewDecoder(4096, func(f hpack.HeaderField) error { fields = append(fields, f); return nil })
 	dec.SetAllowedMaxDynamicTableSize(uint32(allowed))
-	var out []string
+	// a second decoder sees the same blocks one octet per Write
+	dec2 := hpack.NewDecoder(4096, func(f hpack.HeaderField) error { fields2 = append(fields2, f); return nil })
+	dec2.SetAllowedMaxDynamicTableSize(uint32(allowed))
+	var recs []*blockRec
 	dead := false
 	for _, o := range parts[1:] {
 		if dead {
@@ -246,30 +389,48 @@ func exec(op string) string {
 		f := strings.Split(o, ":")
 		switch {
 		case len(f) == 1 && f[0] == "e":
-			block := append([]byte(nil), wire.Bytes()...)
-			wire.Reset()
-			fields = nil
-			_, err := dec.Write(block)
+			block := append([]byte(nil), wire.buf.Bytes()...)
+			rec := &blockRec{hex: vh.Hex(block), writes: wire.writes, x: "XY"}
+			wire.buf.Reset()
+			wire.writes = 0
+			fields, fields2 = nil, nil
+			blk2 := append([]byte(nil), block...)
+			n, err := dec.Write(block)
+			if err == nil && n != len(block) {
+				rec.x = "XN-count"
+			}
+			for i := range block { // the caller reuses its buffer: nothing may still point into it
+				block[i] = 0xAA
+			}
 			if err == nil {
 				err = dec.Close()
 			}
 			if err != nil {
 				dead = true
 			}
-			var fs []string
-			for _, hf := range fields {
-				s := "0"
-				if hf.Sensitive {
-					s = "1"
+			var err2 error
+			for i := range blk2 {
+				one := []byte{blk2[i]}
+				var n2 int
+				n2, err2 = dec2.Write(one)
+				one[0] = 0xAA
+				if err2 != nil {
+					break
 				}
-				fs = append(fs, vh.Hex([]byte(hf.Name))+":"+vh.Hex([]byte(hf.Value))+":"+s)
+				if n2 != 1 {
+					rec.x = "XN-count"
+				}
 			}
-			fstr := "-"
-			if len(fs) > 0 {
-				fstr = strings.Join(fs, ",")
+			if err2 == nil {
+				err2 = dec2.Close()
 			}
-			out = append(out, "B"+vh.Hex(block)+"|F"+fstr+"|E"+errName(err)+"|T"+
-				renderTab(hpack.VerifEncoderTable(enc))+"/"+renderTab(hpack.VerifDecoderTable(dec)))
+			rec.fields, rec.err = fields, err
+			rec.tabs = renderTab(hpack.VerifEncoderTable(enc)) + "/" + renderTab(hpack.VerifDecoderTable(dec))
+			if errName(err2) != errName(err) || renderTab(hpack.VerifDecoderTable(dec2)) != renderTab(hpack.VerifDecoderTable(dec)) {
+				rec.x = "XN-bytewise"
+			}
+			rec.f2 = fields2
+			recs = append(recs, rec)
 		case len(f) == 2 && (f[0] == "m" || f[0] == "l"):
 			v, err := strconv.ParseUint(f[1], 10, 32)
 			if err != nil {
@@ -293,8 +454,18 @@ func exec(op string) string {
 			return "bad-op"
 		}
 	}
-	if len(out) == 0 {
+	if len(recs) == 0 {
 		return "-"
+	}
+	// late rendering: every buffer handed to the decoders has been overwritten by now
+	out := make([]string, len(recs))
+	for i, rec := range recs {
+		x := rec.x
+		if x == "XY" && renderFields(rec.f2) != renderFields(rec.fields) {
+			x = "XN-bytewise-fields"
+		}
+		out[i] = "B" + rec.hex + "|F" + renderFields(rec.fields) + "|E" + errName(rec.err) + "|T" + rec.tabs +
+			"|W" + strconv.Itoa(rec.writes) + "|" + x
 	}
 	return strings.Join(out, ";")
 }
